@@ -3,7 +3,7 @@ SPEC = dict(
     title='Stored fan data round-trips and is isolated per fan and per kind',
     props_file='Props/C14.v', props_mod='Props.C14',
     proof_files=['Proofs/Persist.v', 'Proofs/PersistDrv.v', 'Drv/Persist.v'],
-    tie_vo=[],
+    tie_vo=['Proofs/ConstsTie_buckets.vo'],
     drivers=[dict(name='persist', drv_mod='Drv.Persist', drv_file='Drv/Persist.v', shard=40,
                   args={'quick': ['n=150', 'steps=14', 'kills=32', 'killops=40', 'diskkills=1'],
                         'thorough': ['n=1500', 'steps=24', 'kills=320', 'killops=60', 'diskkills=1']},
